@@ -321,6 +321,12 @@ func runC16Case(tier string, seed uint64, idx int, keepDir string) *CaseResult {
 	sc := c16Scenario(seed, idx)
 	res := runScenario(sc, simProps["C16"].monitors(), keepDir)
 	res.Sample = scenarioSample(sc)
+	if sc.Hot {
+		if res.Cov == nil {
+			res.Cov = map[string]int64{}
+		}
+		res.Cov["cases_with_the_rare_choices_taken_together"]++
+	}
 	if sc.Tightened {
 		if res.Cov == nil {
 			res.Cov = map[string]int64{}
